@@ -21,6 +21,7 @@
  Rk field/key     : the amplifier parameter classes store every configuration entry under its own name (shared with C04).
  R6 neighbours    : every design callee of the OMS walk receives the same running predecessor / successor variables.
  R7 multiband narrowing: per-band candidates come from the selection narrowed by the previous bands.
+ R8 alias names     : per-alias copies of a library entry carry their own name (shared with C18).
 """
 import ast
 
@@ -546,6 +547,16 @@ def r7_multiband_narrowing(ctx):
     ctx.need('R7.multiband-narrowing', 1)
 
 
+
+def r8_alias_names(ctx):
+    """R8: a library model reachable under several names (other_name) is built once per name and reports THAT name as its
+    type_variety: the variety recorded for a selected amplifier is a member of the permitted list it was chosen from - rule shared
+    with C18"""
+    from .c18 import r5_aliases as _r
+    from .common import proxy
+    _r(proxy(ctx, 'R8'))
+
+
 from ..memo import rule_for as _memo_rule
 
 RULES_MEMO = ('Rm.memo', _memo_rule('C10', 'a model would be ranked or judged with the figures of another library or gain'))
@@ -556,4 +567,4 @@ from ..presence import rule_for as _presence_rule
 RULES_PRESENCE = ('Rp.presence', _presence_rule('C10', 'a legal zero would be read as missing'))
 
 RULES = [('R1.precedence', r1_precedence), ('R2.band-cover', r2_band_cover), ('R3.selection', r3_selection),
-         ('R4.raman-gate', r4_raman_gate), ('R5.capability', r5_capability), RULES_MEMO, RULES_PRESENCE, ('Rv.verbose-pure', rv_verbose), ('Rn.arg-roles', rn_arg_roles), ('Rk.field-key', rk_field_key), ('R6.neighbours', r6_neighbours), ('R7.multiband-narrowing', r7_multiband_narrowing)]
+         ('R4.raman-gate', r4_raman_gate), ('R5.capability', r5_capability), RULES_MEMO, RULES_PRESENCE, ('Rv.verbose-pure', rv_verbose), ('Rn.arg-roles', rn_arg_roles), ('Rk.field-key', rk_field_key), ('R6.neighbours', r6_neighbours), ('R7.multiband-narrowing', r7_multiband_narrowing), ('R8.alias-names', r8_alias_names)]
